@@ -227,6 +227,46 @@ func main() {
 		os.Exit(1)
 	}
 	foundRevert := false
+	// EVM.create: is the revert guarded by `err != ErrCodeStoreOutOfGas` ?
+	createFound, createExemptsCodeStoreOOG := false, false
+	for _, d := range ef.Decls {
+		fd, ok := d.(*ast.FuncDecl)
+		if !ok || fd.Body == nil || fd.Name.Name != "create" {
+			continue
+		}
+		createFound = true
+		ast.Inspect(fd.Body, func(nd ast.Node) bool {
+			is, ok := nd.(*ast.IfStmt)
+			if !ok {
+				return true
+			}
+			reverts := false
+			ast.Inspect(is.Body, func(n2 ast.Node) bool {
+				if ce, ok := n2.(*ast.CallExpr); ok {
+					if se, ok := ce.Fun.(*ast.SelectorExpr); ok && se.Sel.Name == "revertToSnapshot" {
+						reverts = true
+					}
+				}
+				return true
+			})
+			if !reverts {
+				return true
+			}
+			// the guard is exactly  err != nil && err != ErrCodeStoreOutOfGas  (no further disjunct)
+			if be, ok := is.Cond.(*ast.BinaryExpr); ok && be.Op == token.LAND {
+				if r, ok := be.Y.(*ast.BinaryExpr); ok && r.Op == token.NEQ {
+					if id, ok := r.Y.(*ast.Ident); ok && id.Name == "ErrCodeStoreOutOfGas" {
+						createExemptsCodeStoreOOG = true
+					}
+				}
+			}
+			return true
+		})
+	}
+	if !createFound {
+		fmt.Fprintln(os.Stderr, "c12journal: EVM.create not found")
+		os.Exit(1)
+	}
 	for _, d := range ef.Decls {
 		fd, ok := d.(*ast.FuncDecl)
 		if !ok || fd.Body == nil || fd.Name.Name != "revertToSnapshot" {
@@ -306,6 +346,7 @@ func main() {
 	fmt.Fprintf(&sb, "Definition gen_suicide_restores_size : bool := %s.   (* suicideChange.revert restores the size counter *)\n", b(suicideRestoresSize))
 	fmt.Fprintf(&sb, "Definition gen_size_revert_rejournals : bool := %s.  (* sizeChange.revert goes through a journalling setter *)\n", b(sizeRejournals))
 	fmt.Fprintf(&sb, "Definition gen_evm_revert_restores_batch : bool := %s. (* EVM.revertToSnapshot writes to the batch *)\n", b(evmRestoresBatch))
+	fmt.Fprintf(&sb, "Definition gen_create_reverts_on_codestore_oog : bool := %s. (* EVM.create reverts when the code deposit runs out of gas *)\n", b(!createExemptsCodeStoreOOG))
 	if *out == "" {
 		fmt.Print(sb.String())
 		return
